@@ -10,7 +10,7 @@ export GOFLAGS=-mod=mod GOPROXY=off GOSUMDB=off GOTOOLCHAIN=local; unset GOWORK
 one() {
   id=$1
   W=$(mktemp -d /tmp/refsweep.XXXX)
-  mkdir -p $W/repo $W/verif; rsync -a --exclude .git /repo/ $W/repo/; cp /verif/known_findings.json /verif/anchors.json $W/verif/
+  mkdir -p $W/repo $W/verif; rsync -a --exclude .git /repo/ $W/repo/; cp /verif/known_findings.json /verif/anchors.json /verif/fields.json $W/verif/
   if ! (cd $W/repo && patch -p1 -s --no-backup-if-mismatch < /verif/refactorings/$id/patch.diff >/dev/null 2>&1); then echo "$id: does not apply"; rm -rf $W; return; fi
   if ! (cd $W/repo && go build ./... >/dev/null 2>&1); then echo "$id: does not build on the current tree"; rm -rf $W; return; fi
   alarms=""
